@@ -607,6 +607,15 @@ func (cs *crashState) check(prop string, k int, imgKind string, rc *recovered, i
 		return &Violation{Prop: prop, Class: class, Sig: prop + "|" + sig, Detail: detail, Seed: seed, Replay: rp}
 	}
 	restartFailed := rc.Start != nil || rc.SimErr != nil || len(rc.Panics) > 0
+	if prop == "C03" && strings.HasPrefix(imgKind, "power") {
+		if len(cs.dropped) == 0 {
+			imgKind = "kill" // nothing was lost: the process-kill image
+		} else {
+			// power-loss images: the position of the crash says little, what was lost
+			// says a lot - signatures carry the kind of un-synced data that was dropped
+			win = cs.powerCause()
+		}
+	}
 	if prop == "C03" {
 		if rc.Start != nil {
 			msg := fmt.Sprint(rc.Start.Panic)
@@ -820,6 +829,35 @@ func (cs *crashState) check(prop string, k int, imgKind string, rc *recovered, i
 		}
 	}
 	return vs, true
+}
+
+// powerCause names the most fundamental kind of un-synced data that the
+// power-loss image under evaluation lost (dropped or torn).
+func (cs *crashState) powerCause() string {
+	cat, creation, primary, wal := false, false, false, false
+	for _, op := range cs.dropped {
+		switch {
+		case strings.Contains(op.Site, "writeCategoryNameFile"):
+			cat = true
+		case strings.HasSuffix(op.Path, ".bin") && (strings.Contains(op.Site, "WriteHeader") || strings.Contains(op.Site, "newTimeBucketInfoFromTemplate")):
+			creation = true
+		case strings.HasSuffix(op.Path, ".bin"):
+			primary = true
+		case strings.HasSuffix(op.Path, ".walfile"):
+			wal = true
+		}
+	}
+	switch {
+	case cat:
+		return "category-name-file-not-durable"
+	case creation:
+		return "file-creation-not-durable"
+	case primary:
+		return "primary-data-not-durable"
+	case wal:
+		return "wal-data-not-durable"
+	}
+	return "nothing-lost"
 }
 
 // lossFact classifies a lost record on a power-loss image: was the (unlogged,
